@@ -806,11 +806,11 @@ theorem not_mem_keys_alErase {κ β : Type} [DecidableEq κ] (k : κ) (l : List 
   exact this hk
 
 /-- `UpdateEndpointOrSet` keeps the invariant. -/
-theorem updateEndpoint_inv {st : Idx Sel} (id : String) (labels : Labels) (nets : List Cidr) (ports : List Port)
+theorem updateEndpointCore_inv {st : Idx Sel} (id : String) (labels : Labels) (nets : List Cidr) (ports : List Port)
     (parents : List String) (h : Inv matchSel st) (hn : ∀ c ∈ nets, c.canon) (hpn : parents.Nodup) :
-    Inv matchSel (updateEndpoint matchSel id labels nets ports parents st) := by
+    Inv matchSel (updateEndpointCore matchSel id labels nets ports parents st) := by
   have hc := h.core
-  unfold updateEndpoint
+  unfold updateEndpointCore
   cases hget : alGet id st.eps with
   | none =>
     simp only
@@ -887,6 +887,53 @@ theorem updateEndpoint_inv {st : Idx Sel} (id : String) (labels : Labels) (nets 
       rcases mem_alSet hp' with rfl | hp'
       · exact hok s
       · exact (OK_congr matchSel (hcfg s) hpar rfl rfl rfl rfl (fun _ => Iff.rfl)).2 (h.lab p (mem_alErase hp') s)
+
+theorem dedupParents_nodup (l : List String) : (dedupParents l).Nodup := by
+  unfold dedupParents
+  have : ∀ (l acc : List String), acc.Nodup →
+      (l.foldl (fun acc p => if p ∈ acc then acc else acc ++ [p]) acc).Nodup := by
+    intro l
+    induction l with
+    | nil => intro acc h; exact h
+    | cons a l ih =>
+      intro acc h
+      rw [List.foldl_cons]
+      apply ih
+      by_cases ha : a ∈ acc
+      · simp only [ha, if_true]; exact h
+      · simp only [ha, if_false]
+        rw [List.nodup_append]
+        refine ⟨h, by simp, ?_⟩
+        intro x hx y hy
+        simp only [List.mem_singleton] at hy
+        subst hy
+        rintro rfl
+        exact ha hx
+  exact this l [] List.nodup_nil
+
+theorem mem_dedupParents (l : List String) (p : String) : p ∈ dedupParents l ↔ p ∈ l := by
+  unfold dedupParents
+  have : ∀ (l acc : List String),
+      p ∈ l.foldl (fun acc p => if p ∈ acc then acc else acc ++ [p]) acc ↔ p ∈ acc ∨ p ∈ l := by
+    intro l
+    induction l with
+    | nil => intro acc; simp
+    | cons a l ih =>
+      intro acc
+      rw [List.foldl_cons, ih]
+      by_cases ha : a ∈ acc
+      · simp only [ha, if_true, List.mem_cons]
+        constructor
+        · rintro (h | h); exact Or.inl h; exact Or.inr (Or.inr h)
+        · rintro (h | rfl | h); exact Or.inl h; exact Or.inl ha; exact Or.inr h
+      · simp only [ha, if_false, List.mem_append, List.mem_cons, List.not_mem_nil, or_false, or_assoc]
+  rw [this l []]; simp
+
+/-- `UpdateEndpointOrSet` keeps the invariant, whatever the profile-id list. -/
+theorem updateEndpoint_inv {st : Idx Sel} (id : String) (labels : Labels) (nets : List Cidr) (ports : List Port)
+    (parents : List String) (h : Inv matchSel st) (hn : ∀ c ∈ nets, c.canon) :
+    Inv matchSel (updateEndpoint matchSel id labels nets ports parents st) :=
+  updateEndpointCore_inv matchSel id labels nets ports (dedupParents parents) h hn (dedupParents_nodup parents)
 
 end CoreInv
 end CalicoVerif.C04
